@@ -219,6 +219,13 @@ package carddav
 //@   reveal propRel
 //@   requires R1: c != nil && clientOK(c.ic) && query != nil && sentCount == 0
 //@   requires R2: queryEncodable(query)
+//@   -- C14: the call fails exactly when the transport fails, the status is not 207 (a non-2xx status is carried by the error)
+//@   -- or the multi-status cannot be turned into objects; nothing is returned next to an error
+//@   ensures E1: doCalls == old(doCalls) || doCalls == old(doCalls) + 1
+//@   ensures E2: doCalls == old(doCalls) ==> err != nil
+//@   ensures E3: doCalls == old(doCalls) + 1 && (lastErr(c.ic) != nil || lastStatus(c.ic) != 207) ==> err != nil && (lastErr(c.ic) == nil && lastStatus(c.ic) / 100 != 2 ==> httpCode(err) == lastStatus(c.ic))
+//@   ensures E4: err == nil ==> doCalls == old(doCalls) + 1 && lastErr(c.ic) == nil && lastStatus(c.ic) == 207
+//@   ensures E5: err != nil ==> len(aos) == 0
 //@   ensures C1: sentCount == 1 && sentMethod == "REPORT" && sentPath == addressBook
 //@   ensures C2: dynPtr(sentBody, "*addressbookQuery") != nil && wireDenotes(dynPtr(sentBody, "*addressbookQuery"), query)
 //@   loop 1 invariant I1: sentCount == 0 && propCarries(addressbookQuery.Prop, query.DataRequest) && string(addressbookQuery.Filter.Test) == string(query.FilterTest) && addressbookQuery.Limit == nil
@@ -228,6 +235,13 @@ package carddav
 //@ -- C09: addressbook-multiget: hrefs in order, data request carried
 //@ func carddav.(*Client).MultiGetAddressBook(c, ctx, path, multiGet) (aos, err)
 //@   requires R1: c != nil && clientOK(c.ic) && multiGet != nil && sentCount == 0
+//@   -- C14: the call fails exactly when the transport fails, the status is not 207 (a non-2xx status is carried by the error)
+//@   -- or the multi-status cannot be turned into objects; nothing is returned next to an error
+//@   ensures E1: doCalls == old(doCalls) || doCalls == old(doCalls) + 1
+//@   ensures E2: doCalls == old(doCalls) ==> err != nil
+//@   ensures E3: doCalls == old(doCalls) + 1 && (lastErr(c.ic) != nil || lastStatus(c.ic) != 207) ==> err != nil && (lastErr(c.ic) == nil && lastStatus(c.ic) / 100 != 2 ==> httpCode(err) == lastStatus(c.ic))
+//@   ensures E4: err == nil ==> doCalls == old(doCalls) + 1 && lastErr(c.ic) == nil && lastStatus(c.ic) == 207
+//@   ensures E5: err != nil ==> len(aos) == 0
 //@   ensures G1: sentCount == 1 && sentMethod == "REPORT" && sentPath == path
 //@   ensures G2: let w : dynPtr(sentBody, "*addressbookMultiget") in w != nil && propCarries(w.Prop, multiGet.DataRequest)
 //@   |   && (len(multiGet.Paths) == 0 ? (len(w.Hrefs) == 1 && w.Hrefs[0].Path == path)
